@@ -19,6 +19,9 @@ import (
 	"encoding/hex"
 	"fmt"
 	"io"
+	"os"
+	"os/exec"
+	"syscall"
 	"net/http"
 	"net/http/cookiejar"
 	"net/url"
@@ -176,17 +179,25 @@ func rtc(s script) []string {
 
 // ---- transparent client: copies the value verbatim --------------------------------------------------
 
+// expires: does a conforming client that holds the flash cookie (name fiber_flash, path "/", host
+// cookie) drop it after this response? Decided by Go's net/http cookie parser and cookiejar: a
+// stand-in cookie with a storable value is put into a jar, the response's Set-Cookie lines are
+// applied, and the jar is asked again.
 func expires(raw []byte) bool {
-	r, err := parseResp(raw)
+	u, _ := url.Parse("http://example.com/show")
+	jar, _ := cookiejar.New(nil)
+	jar.SetCookies(u, []*http.Cookie{{Name: "fiber_flash", Value: "standin", Path: "/"}})
+	hr, err := http.ReadResponse(bufio.NewReader(bytes.NewReader(raw)), nil)
 	if err != nil {
 		return false
 	}
-	for _, v := range r.get("Set-Cookie") {
-		if strings.HasPrefix(v, "fiber_flash=;") && strings.Contains(v, "max-age=0") && strings.Contains(v, "path=/") {
-			return true
+	jar.SetCookies(u, hr.Cookies())
+	for _, c := range jar.Cookies(u) {
+		if c.Name == "fiber_flash" {
+			return false
 		}
 	}
-	return false
+	return true
 }
 
 func rawShow(cookie string, has bool) []byte {
@@ -214,6 +225,43 @@ func rtt(s script) []string {
 }
 
 // ---- decode histories ----------------------------------------------------------------------------------
+
+// dangerous: a cookie whose array/map headers announce more elements than a few thousand. If the
+// decoder's size bound is ever lost such a cookie makes the process allocate gigabytes; those
+// histories run in a child process with an address-space limit, and a dead child is the observation.
+func dangerous(cookies []string) bool {
+	for _, c := range cookies {
+		if strings.Contains(c, "\xdd") || strings.Contains(c, "\xdf") || strings.Contains(c, "\xdc\xff") {
+			return true
+		}
+	}
+	return false
+}
+
+func decChild(cookies []string) []string {
+	out, err := os.CreateTemp("", "c12child")
+	if err != nil {
+		return dec(cookies)
+	}
+	out.Close()
+	defer os.Remove(out.Name())
+	cmd := exec.Command(os.Args[0], "-child", gen.HexList(cookies), "-out", out.Name())
+	cmd.Env = append(os.Environ(), "GOMEMLIMIT=1GiB")
+	if err := cmd.Run(); err != nil {
+		var obs, al []string
+		for range cookies {
+			obs = append(obs, "0/none/crashed/0")
+			al = append(al, "99999999999")
+		}
+		return []string{strings.Join(obs, "|"), strings.Join(al, ",")}
+	}
+	b, _ := os.ReadFile(out.Name())
+	f := strings.Split(strings.TrimRight(string(b), "\n"), "\t")
+	if len(f) != 2 {
+		return []string{"0/none/crashed/0", "99999999999"}
+	}
+	return f
+}
 
 func dec(cookies []string) []string {
 	cur = script{}
@@ -309,12 +357,34 @@ func runCase(w *gen.Writer, id, kind string, in []string) {
 		if len(in) < 1 {
 			return
 		}
-		obs := dec(gen.UnHexList(in[0]))
+		cs := gen.UnHexList(in[0])
+		var obs []string
+		if dangerous(cs) {
+			obs = decChild(cs)
+		} else {
+			obs = dec(cs)
+		}
 		w.Case(id, append([]string{kind, in[0]}, obs...)...)
 	}
 }
 
+func childMain() {
+	// -child <hexlist> -out <file>: run one decode history under a 3 GiB address-space limit
+	_ = syscall.Setrlimit(syscall.RLIMIT_AS, &syscall.Rlimit{Cur: 3 << 30, Max: 3 << 30})
+	log.SetOutput(io.Discard)
+	setup()
+	for i := 0; i < 8; i++ {
+		serve(rawShow("\x90", true))
+	}
+	obs := dec(gen.UnHexList(os.Args[2]))
+	_ = os.WriteFile(os.Args[4], []byte(strings.Join(obs, "\t")+"\n"), 0o644)
+}
+
 func main() {
+	if len(os.Args) == 5 && os.Args[1] == "-child" && os.Args[3] == "-out" {
+		childMain()
+		return
+	}
 	log.SetOutput(io.Discard)
 	o := gen.ParseFlags()
 	w := gen.NewWriter(o.Out)
